@@ -50,6 +50,7 @@ pub fn generator(prop: &str) -> Option<Gen> {
         "C06" => Some(gen::gen_c06),
         "C02" => Some(gen::gen_c02),
         "C04" => Some(gen::gen_c04),
+        "C01" => Some(gen::gen_c01),
         _ => None,
     }
 }
@@ -64,6 +65,7 @@ pub fn budget(prop: &str, tier: &str) -> u64 {
         "C06" => 300,
         "C02" => 300,
         "C04" => 900,
+        "C01" => 200,
         "C14" => 3 * 6 * 155 + 200,
         _ => 150,
     };
